@@ -151,6 +151,15 @@ def judge_matrix(case) -> Outcome:
     levels = make_levels(n, case["labels"])
     c = make_contrast(kind, o, levels)
     tag = f"{kind}{o} n={n} labels={case['labels']}"
+    if "scores" not in o and "base" not in o and n % 2 == 0:
+        # one contrasts object may serve factors with different numbers of levels (e.g. passed in through the context): what it
+        # answered for another level list before must not matter
+        for m in (n + 3, max(1, n - 1)):
+            try:
+                c.get_coding_matrix(make_levels(m, case["labels"]), reduced_rank=True, sparse=False)
+            except Exception:  # noqa: BLE001  (that other answer is judged in its own case)
+                pass
+        tag += " [object used for other level counts before]"
     R = ref_matrix(kind, n, o)
     mats = {}
     for sparse in (False, True):
